@@ -37,6 +37,12 @@ fn spec_case(stat: &str, x: &RefArray, what: &str) -> J {
 
 /// Compares the real statistic with the reference on one spectrum.
 fn check_spectrum(stat: &str, x: &RefArray, what: &str) -> Option<Viol> {
+    check_spectrum_w(stat, x, what, None)
+}
+
+/// `weight`: the share of one site in the spectrum (1 / total) when the statistic is a site average
+/// whose value is of that order; the comparison is then relative to it rather than to one.
+fn check_spectrum_w(stat: &str, x: &RefArray, what: &str, weight: Option<f64>) -> Option<Viol> {
     // Tajima's D with n = 3 is identically 0/0 (pi = S/a_1 and both variance coefficients vanish):
     // whatever floating-point rounding makes of it is not a defect
     if stat == "d-tajima" && x.shape == [4] {
@@ -50,7 +56,11 @@ fn check_spectrum(stat: &str, x: &RefArray, what: &str) -> Option<Viol> {
     };
     match catch(|| real_stat(stat, &scs)) {
         Ok(Ok(v)) => {
-            if close_stat(v, r, scale) {
+            let ok = match weight {
+                Some(w) => crate::refmodel::close(v, r, 1e-9, 1e-12 * w),
+                None => close_stat(v, r, scale),
+            };
+            if ok {
                 None
             } else {
                 Some((
@@ -102,6 +112,23 @@ fn coefficient_level(stat: &str, shape: &[usize], pairs: bool) -> (u64, Vec<Viol
                 let mut x = basis(shape, i, 3.0);
                 x.data[j] = 5.0;
                 push(check_spectrum(stat, &x, "two-cell"), &mut viols);
+            }
+        }
+    }
+    // a rare class of sites in a genome-sized spectrum: one, two or three sites in a cell next to a
+    // monomorphic corner of 1e6 .. 1e13 sites (the share of the class goes down to 1e-13; a site
+    // average is then of that order and is compared relative to it)
+    for corner in [1e6, 3.1e9, 1e13] {
+        for i in 1..cells {
+            for c in [1.0, 3.0] {
+                evals += 1;
+                let mut x = basis(shape, i, c);
+                x.data[0] = corner;
+                let w = match stat {
+                    "f2" | "f3" | "f4" => Some(1.0 / (corner + c)),
+                    _ => None,
+                };
+                push(check_spectrum_w(stat, &x, "rare-class", w), &mut viols);
             }
         }
     }
@@ -481,7 +508,8 @@ pub fn replay(case: &J) -> Option<Vec<String>> {
                 }
             }
             let leak: &'static str = Box::leak(stat.into_boxed_str());
-            Some(check_spectrum(leak, &x, &what).into_iter().map(|(k, w, _)| format!("{k} :: {w}")).collect())
+            let w = if what == "rare-class" && matches!(leak, "f2" | "f3" | "f4") { Some(1.0 / x.sum()) } else { None };
+            Some(check_spectrum_w(leak, &x, &what, w).into_iter().map(|(k, w, _)| format!("{k} :: {w}")).collect())
         }
         _ => None,
     }
